@@ -114,7 +114,42 @@ def _parse_get_value(text: str) -> dict:
     return out
 
 
+def _elim_const_arrays(assertions):
+    """yices (and z3 under QF_AUFBV) reject `(as const ...)`.  Replace every constant array K(v) by a fresh array
+    constant a_K and add `a_K[i] == v` for every index term i read anywhere in the query (the array property
+    fragment instantiation: complete for select/store formulas without array equalities; in any case it only
+    weakens the assumptions, so `unsat` stays sound and a spurious `sat` is rejected by replay)."""
+    ks, idx, seen, stack = {}, {}, set(), list(assertions)
+    while stack:
+        e = stack.pop()
+        i = e.get_id()
+        if i in seen:
+            continue
+        seen.add(i)
+        if z3.is_quantifier(e):
+            return assertions  # leave quantified queries alone (handled in-process only)
+        if z3.is_app(e):
+            if z3.is_const_array(e):
+                ks[i] = e
+            elif z3.is_select(e):
+                idx.setdefault(e.arg(1).sort().sexpr(), {})[e.arg(1).get_id()] = e.arg(1)
+            stack.extend(e.children())
+    if not ks:
+        return assertions
+    subs, extra = [], []
+    for n, (i, k) in enumerate(ks.items()):
+        a = z3.Const(f"__k{n}_{i}", k.sort())
+        subs.append((k, a))
+        v = k.arg(0)
+        for t in idx.get(k.sort().domain().sexpr(), {}).values():
+            extra.append(z3.Select(a, t) == v)
+    # index terms may themselves contain K arrays: substitute everywhere
+    out = [z3.substitute(x, *subs) for x in list(assertions) + extra]
+    return out
+
+
 def to_smt2(assertions, consts, logic="QF_AUFBV") -> str:
+    assertions = _elim_const_arrays(list(assertions))
     s = z3.Solver()
     for a in assertions:
         s.add(a)
